@@ -221,6 +221,6 @@ fn main() {
 	vt::engine::watchdog(3600);
 	let reg: Vec<Case> = check.regression_cases("merge");
 	check.enumerate("regressions", reg, false, oracle);
-	check.phase("merge", check.cases(60_000, 600_000), strategy, oracle);
+	check.phase("merge", check.cases(150_000, 2_000_000), strategy, oracle);
 	check.finish();
 }
